@@ -40,7 +40,7 @@ func genC08(t *rapid.T) C08Case {
 	c := C08Case{Include: map[string]string{"include/common.ra": "shared1\nshared2\n",
 		"include/words.ra": "foo[-_]bar\nfoo\\sbar\nfoox?bar\nfoo_bar\nshared1\nbaz\n"}, Stray: map[string]string{}}
 	lab := map[string]bool{}
-	targets := []string{"932100", "932100-chain1", "932110", "932200-chain2", "941100", "941100-chain1", "941330"}
+	targets := []string{"932100", "932100-chain1", "932110", "932200-chain02", "941100", "941100-chain1", "941330"}
 	n := rapid.IntRange(1, 5).Draw(t, "nfiles")
 	perm := rapid.Permutation(targets).Draw(t, "targets")[:n]
 	sort.Strings(perm)
